@@ -93,6 +93,8 @@ def _probe_install(kinds, rec):
             sp = Q.PACKET_TYPE_MAP[quic_packet.packet_type]
             tab = self.packet_number_server if quic_packet.isserver else self.packet_number_client
             before = tab[sp]
+            if before is None:
+                before = 0          # "nothing processed yet", however the table spells it
             r = o_p(self, quic_packet)
             rec.append(["q_pn", int(self.client_port), bool(quic_packet.isserver), str(sp[0].name), int(before),
                         bytes(quic_packet.packet_num).hex(), bytes(r).hex(), float(quic_packet.ts)])
